@@ -52,7 +52,7 @@ def default_profile(rng, tier="quick"):
 
 
 #: dimensions added on top of the classic program family (nested for / if / calls / arithmetic); each is drawn per case
-EXOTIC = ("const_conds", "partial", "local_callee", "switches", "multiblock", "while_loops", "state_loops", "head_launch", "stale_links", "memory",
+EXOTIC = ("const_conds", "launch_perm", "partial", "local_callee", "switches", "multiblock", "while_loops", "state_loops", "head_launch", "stale_links", "memory",
           "next_iv", "index_vals", "relaunch", "pure_loop")
 
 
@@ -126,6 +126,9 @@ class AccfgGen:
                 st["omit"] = sorted(r.sample(range(len(st["vals"])), r.randint(1, len(st["vals"]))))
             if p.get("n_launch"):
                 st["lvals"] = [r.choice(p["launch_pool"]) for _ in range(p["n_launch"][a])]
+                if p.get("launch_perm") and p["n_launch"][a] >= 2 and r.random() < p["launch_perm"]:
+                    # the launch names its registers in another order than the accelerator declares them, or only some of them
+                    st["lperm"] = r.sample(range(p["n_launch"][a]), r.randint(1, p["n_launch"][a]))
             if p.get("prethread") and r.random() < p["prethread"]:
                 # "stale": the link names an older state of the accelerator in this block although other setups or calls
                 # came in between (IR that was threaded before something was inserted): tracing has to replace or drop it
@@ -418,7 +421,10 @@ def emit(ast, acc_names=None, vty="i32", decls=()) -> str:
             if last is not None:
                 last[s["acc"]] = st
             lv = s.get("lvals", [])
-            lnames = ", ".join(f'"{n}"' for n in acc.get("launch_fields", [])[: len(lv)])
+            lf = acc.get("launch_fields", [])[: len(lv)]
+            if s.get("lperm") and all(j < len(lv) for j in s["lperm"]):
+                lv, lf = [lv[j] for j in s["lperm"]], [lf[j] for j in s["lperm"]]
+            lnames = ", ".join(f'"{n}"' for n in lf)
             largs = "".join(f"{v}, " for v in lv)
             ltys = "".join(f"{vty}, " for _ in lv)
             pc = s.get("pc")
@@ -640,6 +646,8 @@ def shrink_body(body):
             yield body[:i] + [dict(s, callee="func")] + body[i + 1 :]
         if k == "call" and s.get("callee") == "local":
             yield body[:i] + [{kk: vv for kk, vv in dict(s, callee="func").items() if kk not in ("acc", "vals")}] + body[i + 1 :]
+        if k == "sl" and s.get("lperm"):
+            yield body[:i] + [{kk: vv for kk, vv in s.items() if kk != "lperm"}] + body[i + 1 :]
         if k == "sl" and s.get("omit"):
             yield body[:i] + [{kk: vv for kk, vv in s.items() if kk != "omit"}] + body[i + 1 :]
         if k == "sl":
